@@ -359,6 +359,14 @@ func addIO(m map[string]Intrinsic) {
 		}
 		return tFalse
 	}
+	m["vocab.vFSRemoveFaulted"] = func(vm *VM, fn *ssa.Function, args []Value) Value {
+		for _, o := range vm.fs().ops {
+			if strings.HasPrefix(o, "FAULT remove") {
+				return tTrue
+			}
+		}
+		return tFalse
+	}
 	m["vocab.vFSPutFile"] = func(vm *VM, fn *ssa.Function, args []Value) Value {
 		f := vm.fs()
 		name := cleanName(vm, args[0])
